@@ -708,17 +708,41 @@ Fixpoint parse_weights (l : list Z) : option (list (nat * dy)) :=
       end
   | _ => None
   end.
+(* |m * 2^e - 1| <= 1 / tol *)
+Definition near_one (tol : Z) (d : dy) : bool :=
+  let '(m, e) := d in
+  if (0 <=? e)%Z then (tol * Z.abs (Z.shiftl m e - 1) <=? 1)%Z
+  else (tol * Z.abs (m - Z.shiftl 1 (- e)) <=? Z.shiftl 1 (- e))%Z.
+(* the interpolate / interpolate_gradient results of the constant function 1 which follow the weights: pairs (flag, bits);
+   flag 0 = None, 1 = Some with a judged value, 2 = Some with a value that is not judged.
+   There is a value exactly when there are weights; a judged value is 1 up to rounding on well-conditioned input. *)
+Fixpoint trailer_ok (tol : Z) (nonempty wc : bool) (l : list Z) : bool :=
+  match l with
+  | [] => true
+  | f :: b :: t =>
+      Bool.eqb (negb (f =? 0)%Z) nonempty
+      && (if (f =? 1)%Z && wc then match decode b with Some d => near_one tol d | None => false end else true)
+      && trailer_ok tol nonempty wc t
+  | _ => false
+  end.
 Definition check_weights (c : cfg) (p : obs) (natural : bool) (args res : list Z) : list (tag * bool) :=
   match args, res with
-  | [x; y], n :: ws =>
-      match with_points p [x; y], parse_weights ws with
-      | Some (pts, [q], _), Some wl =>
+  | [x; y], n :: rest =>
+      let ws := firstn (2 * Z.to_nat n) rest in
+      let trailer := skipn (2 * Z.to_nat n) rest in
+      match with_points p [x; y] with
+      | Some (pts, [q], _) =>
+          let wc := forallb (well_conditioned p pts) (seq 1 (nF p - 1)) in
           let tol := if c_f32 c then 200%Z else 10000000%Z in
-          [(T_interp, (length wl =? Z.to_nat n) && (if natural then nnw_ok p pts tol q wl else bary_ok p pts tol q wl))]
-      | Some (pts, [q], _), None =>
-          (* non-finite weights: only tolerated when the triangulation is not well conditioned (outside the property's domain) *)
-          [(T_interp, negb (forallb (well_conditioned p pts) (seq 1 (nF p - 1))))]
-      | _, _ => [(T_parse, false)]
+          match parse_weights ws with
+          | Some wl =>
+              [(T_interp, (length wl =? Z.to_nat n) && (if natural then nnw_ok p pts tol q wl else bary_ok p pts tol q wl)
+                          && trailer_ok tol (negb (n =? 0)%Z) wc trailer)]
+          | None =>
+              (* non-finite weights: only tolerated when the triangulation is not well conditioned (outside the property's domain) *)
+              [(T_interp, negb wc)]
+          end
+      | _ => [(T_parse, false)]
       end
   | _, _ => [(T_parse, false)]
   end.
